@@ -2,6 +2,7 @@ package checks
 
 import (
 	"fmt"
+	"go.mongodb.org/mongo-driver/mongo/options"
 	"strings"
 	"sync"
 
@@ -64,6 +65,19 @@ func c02Alphabet() (calls []e1.Call, batches map[string]c02Batch) {
 	add(cFindOneAndReplace("d", "c", bD("_id", int32(3)), bD("u", int32(1)), nil, true, false))
 	add(cFindOneAndReplace("d", "c", bD("_id", int32(7)), bD("u", int32(2)), nil, true, true))
 	add(cFindOneAndDelete("d", "c", bD("u", bD("$bogus", int32(1))), nil))
+	// find-one-and-modify whose projection is rejected: the error must not come after the write took effect
+	for _, proj := range []bson.D{bD("u", int32(1), "s", int32(0)), bD("arr", bD("$elemMatch", bD("$bogus", int32(1)))), bD("u", "yes")} {
+		proj := proj
+		add(e1.Call{Name: "d.c.FindOneAndUpdate({}, $inc n, projection " + J(proj) + ")", Do: func(w *world.World) string {
+			return obsSingle(w.C("d", "c").FindOneAndUpdate(w.Ctx, bD(), bD("$inc", bD("n", int32(1))), options.FindOneAndUpdate().SetProjection(proj)))
+		}})
+		add(e1.Call{Name: "d.c.FindOneAndReplace({_id:1}, {u:77}, projection " + J(proj) + ")", Do: func(w *world.World) string {
+			return obsSingle(w.C("d", "c").FindOneAndReplace(w.Ctx, bD("_id", int32(1)), bD("u", int32(77)), options.FindOneAndReplace().SetProjection(proj)))
+		}})
+		add(e1.Call{Name: "d.c.FindOneAndDelete({}, projection " + J(proj) + ")", Do: func(w *world.World) string {
+			return obsSingle(w.C("d", "c").FindOneAndDelete(w.Ctx, bD(), options.FindOneAndDelete().SetProjection(proj)))
+		}})
+	}
 	add(cDelete("d", "c", true, bD("u", bD("$in", int32(1)))))
 	add(cDelete("d", "c", false, bD("_id", int32(2))))
 	// batches: the failing item at every position, and two failing items
